@@ -227,6 +227,12 @@ func RunE1(sc Script, opt E1Opts) *E1Result {
 			break
 		}
 		err := drv.Write(i, op)
+		if step.ExpectError && strings.HasPrefix(step.Reason, "dts extractor") {
+			// the presentation times / picture order counts of the script are not acceptable to the
+			// DTS extractor: the write fails, the statement covers successful writes only
+			res.Labels["dtsExtractorRejected"] = true
+			break
+		}
 		if step.ExpectError {
 			res.RejectedForSize = true
 			if err == nil {
